@@ -758,6 +758,28 @@ impl Histogram {
     }
 }
 
+#[cfg(prometheus_verif)]
+impl Histogram {
+    /// Verification hook: addresses of the histogram's shared locations, in the order
+    /// `collect_lock, shard_and_count, [count, sum, buckets...] of shard 0, the same of shard 1`.
+    #[doc(hidden)]
+    pub fn verif_addrs(&self) -> Vec<usize> {
+        let c = &*self.core;
+        let mut v = vec![
+            &c.collect_lock as *const _ as *const u8 as usize,
+            &c.shard_and_count.inner as *const _ as *const u8 as usize,
+        ];
+        for s in &c.shards {
+            v.push(&s.count as *const _ as *const u8 as usize);
+            v.push(&s.sum as *const _ as *const u8 as usize);
+            for b in &s.buckets {
+                v.push(b as *const _ as *const u8 as usize);
+            }
+        }
+        v
+    }
+}
+
 impl Metric for Histogram {
     fn metric(&self) -> proto::Metric {
         let mut m = proto::Metric::from_label(self.core.label_pairs.clone());
